@@ -62,6 +62,11 @@ func CompareAll(exp, got []hist.Obs) string {
 		return fmt.Sprintf("observation count differs: model %d, implementation %d", len(exp), len(got))
 	}
 	for i := range exp {
+		if exp[i].Kind == "panic" && got[i].Kind == "panic" {
+			// after a panic the implementation's File is in a partially updated state that
+			// no property talks about: the rest of the history is not compared
+			return ""
+		}
 		if !hist.SameObs(exp[i], got[i]) {
 			return fmt.Sprintf("observation %d differs:\n  model: %s\n  impl:  %s", i, exp[i], got[i])
 		}
